@@ -22,6 +22,8 @@ HERE = os.path.dirname(os.path.dirname(os.path.abspath(__file__)))
 
 
 def _reexec():
+    if os.environ.get("VERIF_NO_REEXEC"):
+        return
     if os.environ.get("PYTHONHASHSEED") != "0":
         env = dict(os.environ)
         env["PYTHONHASHSEED"] = "0"
@@ -30,9 +32,9 @@ def _reexec():
 
 
 QUICK_RUNS = {
-    "C01": 8000, "C02": 8000, "C03": 8000, "C04": 6000, "C05": 6000,
-    "C06": 5000, "C07": 8000, "C08": 8000, "C10": 5000, "C11": 1200,
-    "C12": 500, "C13": 400, "C14": 6000, "C15": 6000, "C16": 6000,
+    "C01": 24000, "C02": 32000, "C03": 28000, "C04": 28000, "C05": 24000,
+    "C06": 12000, "C07": 32000, "C08": 28000, "C10": 16000, "C11": 8000,
+    "C12": 4000, "C13": 1200, "C14": 32000, "C15": 28000, "C16": 24000,
 }
 
 LEVEL = {
@@ -375,6 +377,10 @@ def main():
     c.add_argument("--runs", default=None)
     r = sub.add_parser("replay")
     r.add_argument("path")
+    d = sub.add_parser("digests")
+    d.add_argument("--property", required=True)
+    d.add_argument("--n", type=int, default=50)
+    d.add_argument("--base", type=int, default=0)
     s = sub.add_parser("selftest")
     s.add_argument("which")
     s.add_argument("--tier", default="quick")
@@ -388,6 +394,10 @@ def main():
         if v is not None:
             print("VIOLATION property=%s replay=%s" % (v["property"], a.path))
             sys.exit(1)
+        sys.exit(0)
+    if a.cmd == "digests":
+        from . import selftest
+        print(json.dumps(selftest.digests(a.property, a.n, a.base)))
         sys.exit(0)
     if a.cmd == "selftest":
         from . import selftest
